@@ -123,7 +123,7 @@ func generate(c *core.Ctx, in *Instance, deviations []string, coverage bool) ([]
 	var perr error
 	opts := tlc.Opts{
 		SpecDir: specDir(), Module: "MC_HashColl", Cfg: "Gen.cfg", Scratch: c.Scratch,
-		Workers: minInt(c.Workers, 8), Timeout: 12 * time.Minute, Coverage: coverage,
+		Workers: minInt(c.Workers, 8), Timeout: 20 * time.Minute, Coverage: coverage,
 		Extra: map[string][]byte{"MC_HashColl.tla": mcModule(in, deviations)},
 		OnGen: func(b []byte) {
 			var g GenRec
